@@ -14,6 +14,8 @@ type c02cfg struct {
 	P *c01sub
 	N c01sub
 	X int8
+	// only the defaults ever set this one
+	Keep map[string]int8
 }
 
 type c02watch struct {
@@ -33,7 +35,7 @@ func (s *c02watch) Watch(ctx context.Context, t *Type, wa WatchArgs) error {
 // with the defaults, the source values or any other version.
 func c02history(k int) {
 	mk := func() *c02cfg {
-		return &c02cfg{M: map[string]int8{"d": 1}, S: make([]int16, 1, 3), P: &c01sub{V: 5, W: "p"}, X: 3}
+		return &c02cfg{M: map[string]int8{"d": 1}, S: make([]int16, 1, 3), P: &c01sub{V: 5, W: "p"}, X: 3, Keep: map[string]int8{"k": 1}}
 	}
 	def, def0 := mk(), mk()
 	ot := reflect.TypeOf(def).Elem()
